@@ -445,3 +445,15 @@ Proof.
   intros Hu s. pose proof (ring_invariants P cap n locked a scripts sched Hu) as I. fold s in I.
   split; [apply (ri_dups _ _ I)|]. split; [apply (ri_nodup _ _ I)|apply (ri_out _ _ I)].
 Qed.
+
+(* non-vacuity: capacity 2, threadsafe_alloc from two threads; thread 0 takes block 0, thread 1 finds the
+   lock held and spins, then takes block 1; thread 0 frees block 0 and takes it again (the cursor skips the
+   block in use) *)
+Example ring_nonvacuous :
+  let P := {| mo_ts_load_free := Acq; mo_ts_cas_alloc := Rlx; mo_ts_store_free := Rel; mo_spin_tas := Acq;
+              mo_spin_clear := Rel; mo_sowr_load_free := Rlx; mo_sowr_store_free := Rlx;
+              mo_ring_load_inuse := Rlx; mo_ring_store_inuse := Rlx |} in
+  let scripts := fun t => match t with 0 => [OpAlloc; OpFreeOwn 0; OpAlloc; OpAlloc] | 1 => [OpAlloc] | _ => [] end in
+  let s := ring_run P 2 2 true scripts (repeat (0, 0) 5 ++ repeat (1, 0) 7 ++ repeat (0, 0) 5 ++ repeat (1, 0) 9 ++ repeat (0, 0) 12) in
+  ring_usage 0 true scripts /\ r_dups s = 0 /\ map fst (r_out s) = [1; 0].
+Proof. split; [intros H; discriminate|]. vm_compute. split; reflexivity. Qed.
